@@ -28,7 +28,13 @@ REFUSE_KINDS = ['for', 'while', 'call', 'chained-compare', 'tuple-target', 'floa
                 'return-bare', 'delete', 'annassign', 'with', 'raise', 'try', 'trystar', 'import', 'importfrom', 'global', 'pass',
                 'async-def', 'classdef', 'typealias', 'yield', 'yieldfrom', 'dict', 'set', 'listcomp', 'setcomp', 'dictcomp',
                 'genexp', 'fstring', 'starred', 'tuple-value', 'matmult', 'isnot-compare', 'notin-compare', 'match-singleton',
-                'other-call', 'call-keyword']
+                'other-call', 'call-keyword',
+                # FORMS of subset node kinds that are outside the subset (the node kind alone does not tell)
+                'chained-compare-3', 'chained-compare-mixed', 'chained-compare-eq', 'chained-compare-value', 'multi-target',
+                'aug-pow', 'aug-truediv', 'aug-matmult', 'aug-subscript-target', 'call-starred-arg', 'call-kw-prepare', 'call-get-arg',
+                'call-two-args', 'call-self-method', 'call-on-local', 'const-bytes', 'const-none', 'const-ellipsis', 'const-complex',
+                'attr-nonself', 'attr-nested-target', 'subscript-target', 'slice', 'subscript-index', 'bare-expr-stmt', 'bare-call-stmt',
+                'assign-to-wire-attr', 'match-value-attr', 'compare-tuple', 'boolop-in-call-kw']
 
 
 class G:
@@ -264,7 +270,37 @@ def refuse_snippet(kind, rng, g):
         'for': [f'x = 0', f'for i in range(3):', f'    x = x + {a}', f'{o}.{wr}(x)'],
         'while': [f'x = {a}', f'while x > 3:', f'    x = x - 3', f'{o}.{wr}(x)'],
         'call': [f'{o}.{wr}(max({a}, 3))'],
-        'chained-compare': [f'if 1 < {a} < 5:', f'    {o}.{wr}(1)'],
+        'chained-compare': [f'if 1 < {a} < 5:', f'    {o}.{wr}(1)', 'else:', f'    {o}.{wr}(0)'],
+        'chained-compare-3': [f'if 0 < {a} < 12 < {a} + 9:', f'    {o}.{wr}(1)', 'else:', f'    {o}.{wr}(0)'],
+        'chained-compare-mixed': [f'if 0 <= {a} != 3 < 9:', f'    {o}.{wr}(1)', 'else:', f'    {o}.{wr}(0)'],
+        'chained-compare-eq': [f'if {a} == {a} == 2:', f'    {o}.{wr}(1)', 'else:', f'    {o}.{wr}(0)'],
+        'chained-compare-value': [f'{o}.{wr}((1 < {a} < 5) + 2)'],
+        'multi-target': [f'x = y = {a}', f'{o}.{wr}(x + y)'],
+        'aug-pow': [f'x = {a}', 'x **= 2', f'{o}.{wr}(x)'],
+        'aug-truediv': [f'x = {a}', 'x /= 2', f'{o}.{wr}(3)'],
+        'aug-matmult': [f'x = {a}', 'x @= 2', f'{o}.{wr}(3)'],
+        'aug-subscript-target': ['self.tab[0] += 1', f'{o}.{wr}({a})'],
+        'call-starred-arg': [f'{o}.{wr}(*[{a}])'],
+        'call-kw-prepare': [f'{o}.{wr}(val={a})'],
+        'call-get-arg': [f'{o}.{wr}({a[:-2]}(0))'],
+        'call-two-args': [f'{o}.{wr}({a}, 2)'],
+        'call-self-method': [f'{o}.{wr}(self.helper({a}))'],
+        'call-on-local': [f'x = {a}', f'{o}.{wr}(x.bit_length())'],
+        'const-bytes': ['x = b"a"', f'{o}.{wr}({a})'],
+        'const-none': ['x = None', f'{o}.{wr}({a})'],
+        'const-ellipsis': ['x = ...', f'{o}.{wr}({a})'],
+        'const-complex': [f'{o}.{wr}({a} + 1j)'],
+        'attr-nonself': [f'{o}.{wr}({a} + py4hw.__name__.__len__())'],
+        'attr-nested-target': ['self.sub.x = 1', f'{o}.{wr}({a})'],
+        'subscript-target': ['self.tab[0] = 1', f'{o}.{wr}({a})'],
+        'slice': [f'{o}.{wr}(self.tab[0:1][0])'],
+        'subscript-index': [f'{o}.{wr}(({a}, 2)[0])'],
+        'bare-expr-stmt': [f'{a} + 1', f'{o}.{wr}({a})'],
+        'bare-call-stmt': ['self.helper()', f'{o}.{wr}({a})'],
+        'assign-to-wire-attr': [f'{o}.value = {a}'],
+        'match-value-attr': [f'match {a} & 3:', '    case py4hw.ZERO:', f'        {o}.{wr}(5)', '    case _:', f'        {o}.{wr}(2)'],
+        'compare-tuple': [f'if ({a}, 1) == (2, 1):', f'    {o}.{wr}(1)', 'else:', f'    {o}.{wr}(0)'],
+        'boolop-in-call-kw': [f'print({a}, end="")', f'{o}.{wr}({a} and 1, 2)'],
         'tuple-target': [f'x, y = {a}, 2', f'{o}.{wr}(x + y)'],
         'float-const': [f'{o}.{wr}({a} + 1.5)'],
         'list-literal': [f'x = [1, 2, 3]', f'{o}.{wr}(x[0])'],
@@ -380,7 +416,7 @@ def gen_class(rng, idx, profile, refuse_kind=None):
     seq = rng.chance(3, 4)
     g = G(rng, profile, seq)
     wl = WIDTHS_WILD if profile == 'wild' else WIDTHS_SAFE
-    g.ins = [(f'i{k}', rng.choice(wl)) for k in range(rng.randint(1, 4))]
+    g.ins = [(f'i{k}', rng.choice(wl if not refuse_kind else [4, 8, 8])) for k in range(rng.randint(1, 4))]
     g.outs = [(f'o{k}', rng.choice(wl + [32])) for k in range(rng.randint(1, 3))]
     g.attr_of = {n: n for n, _ in g.ins + g.outs}
     if profile == 'wild' and rng.chance(1, 10):
